@@ -40,7 +40,9 @@ ASSUMPTIONS = [
     "gas inside a transaction is not modelled: the driver allots gas generously; a frame whose creator was starved by a failing CREATE (63/64 rule) may only end",
     "ETX-cache index classes 65535/65536 are reached by pre-filling EVM.ETXCache from the tracer (65536 ETXs cannot be paid for within one block)",
     "eligibility of destination zones is stubbed (zone 0-1 eligible, zone 0-2 not): the deployed topology has a single zone",
-    "DELEGATECALL/CALLCODE/STATICCALL/CREATE2 frames, precompiles other than the lockup contract, SSTORE refunds and access-list enforcement (bypassed while tracing) are outside the model",
+    "frame kinds: CALL, DELEGATECALL, CALLCODE, STATICCALL (read-only context incl. write protection of ETX/CONVERT/CREATE/SELFDESTRUCT/value CALL/SSTORE/LOG and the lockup contract's own refusal), CREATE, CREATE2 (one created address per behaviour; the driver supplies a CREATE2 salt whose address lies in this zone); targets of the call kinds are accounts of this zone's Quai ledger (a foreign target is an out-of-gas halt in gasCall)",
+    "precompiles other than the lockup contract, SSTORE refunds and access-list enforcement (bypassed while tracing) are outside the model",
+    "coinbase-lockup records of the pre-state are committed in the database and the block batch has the pending view on (as StateProcessor.Process / the worker set it up); a quarter of the random scenarios stage them in the batch instead; consecutive transactions of a behaviour share the batch (one block)",
     "conversion / coinbase-lockup INBOUND ETXs (handled by StateProcessor.Process, not ApplyTransaction) are outside the model",
     "TLC, the Go runtime and the memory database are trusted",
 ]
@@ -55,7 +57,7 @@ def check_constants(drv):
     want = {"Rent": par["rent"], "TxGas": par["txgas"], "IntrinsicGas": par["intrinsic"]}
     if par["etxgas"] != par["txgas"]:
         raise Broken("params.ETXGas != params.TxGas: the specification's XGasClass thresholds assume they are equal")
-    for cfg in ["EvmValueTrace.cfg", "MCEvmValue_emit_ops.cfg", "MCEvmValue_emit_frames.cfg"]:
+    for cfg in ["EvmValueTrace.cfg", "MCEvmValue_emit_ops.cfg", "MCEvmValue_emit_frames.cfg", "MCEvmValue_emit_xframes.cfg", "MCEvmValue_emit_claim.cfg"]:
         txt = (vlib.SPEC / cfg).read_text()
         for k, v in want.items():
             m = re.search(r"^\s*%s = (\d+)" % k, txt, re.M)
@@ -201,10 +203,12 @@ def validate_trace(ctx, drv, n, depth, tag, seed, timeout=3000):
         k = max(i for i in range(len(bounds) - 1) if bounds[i] < line)
         return k, bounds[k], bounds[k + 1]
 
-    validated, offset, rounds = 0, 0, 0
+    validated, offset, rounds, own = 0, 0, 0, 0
     explained = set()            # trace lines (1-based, global) at which TLC reported a named deviation
+    covered = []                 # [first, last) ranges of trace lines (1-based, global) TLC walked through without a problem
     cur = rows
-    while cur and rounds < 6:
+    # (a scenario with a problem is reported and skipped; at most 6 problems that concern this property, 30 in all)
+    while cur and own < 6 and rounds < 30:
         rounds += 1
         text = "".join(json.dumps(r, separators=(",", ":")) + "\n" for r in cur)
         t = vlib.tlc(ctx, "EvmValueTrace", "EvmValueTrace.cfg", workers=1, timeout=timeout, tag="EvmValueTrace-%s-%d" % (tag, rounds),
@@ -217,6 +221,8 @@ def validate_trace(ctx, drv, n, depth, tag, seed, timeout=3000):
                              {"random": dict(args, scenario=k)})
         if t.ok:
             validated += len([r for r in cur if r["a"] == "tracereset"])
+            covered.append((offset + 1, len(rows) + 1))
+            cur = []
             break
         # first problem: an observation that differs, an invariant that fails on the implementation's state, or an
         # event that is no enabled action of the specification
@@ -246,9 +252,11 @@ def validate_trace(ctx, drv, n, depth, tag, seed, timeout=3000):
             props = {"C05", "C02"} if ev["a"] in SEND or ev["a"] == "abort" else {"C02"}
             sig = {"kind": "trace-rejected", "a": ev["a"]}
         if ctx.id in props:
+            own += 1
             report(ctx, sig, {"trace": rows[a:b], "trace_line_in_scenario": line - a, "random": dict(args, scenario=k),
                                    "tlc": (t.out[-2500:] if what != "trace-vs-spec" else t.out[t.out.rfind("mismatch = <<"):][:2500])})
         validated += k - len([1 for i in bounds[:-1] if i < offset])      # scenarios of this round in front of the offender
+        covered.append((offset + 1, line))
         # continue behind the offending scenario
         offset = b
         cur = rows[b:]
@@ -257,8 +265,14 @@ def validate_trace(ctx, drv, n, depth, tag, seed, timeout=3000):
     for gl in explained:
         if rows[gl - 1].get("aon") == "etx-carries-more-than-debited":
             prefork.add(scen_of(gl)[0])
+    # (only where TLC got to: behind an offending event, and behind the sixth offending scenario, the named deviations of
+    # the specification were not reported, so a native verdict there cannot be told from a known deviation)
+    if cur:
+        vlib.log("%d offending scenarios: %d trace lines behind the last one were not validated" % (rounds, len(cur)))
     for i, r in enumerate(rows):
         gl = i + 1
+        if not any(a <= gl < b for a, b in covered):
+            continue
         if r.get("aon", "ok") != "ok" and gl not in explained and ctx.id == "C05":
             k, a, b = scen_of(gl)
             report(ctx, {"kind": "native-all-or-nothing", "a": r["a"], "why": r["aon"]},
@@ -292,13 +306,20 @@ def run_check(ctx):
     # transaction, so one TLC run serves the design-level check and the spec -> code direction.
     if quick:
         design, strict = [], []
-        emits = [[("MCEvmValue_emit_ops.cfg", 5000), ("MCEvmValue_emit_f5.cfg", None)], [("MCEvmValue_emit_frames_q.cfg", 4000)]]
+        emits = [[("MCEvmValue_emit_ops.cfg", 5000), ("MCEvmValue_emit_f5.cfg", None)], [("MCEvmValue_emit_frames_q.cfg", 4000)],
+                 # the other frame kinds (DELEGATECALL / CALLCODE / STATICCALL / CREATE2, depth 2 and 3, two operations per frame)
+                 # and the twice-claimed lockup: small universes, replayed completely
+                 [("MCEvmValue_emit_xframes.cfg", None), ("MCEvmValue_emit_xframes3.cfg", None)],
+                 [("MCEvmValue_emit_xframes_ops2.cfg", None), ("MCEvmValue_emit_claim.cfg", None)]]
         chunks, depth = [(600, ctx.seed)], 4
     else:
-        design = ["MCEvmValue_frames_small.cfg", "MCEvmValue_frames_big.cfg", "MCEvmValue_ops_small.cfg", "MCEvmValue_gas_small.cfg"]
+        design = ["MCEvmValue_frames_small.cfg", "MCEvmValue_frames_big.cfg", "MCEvmValue_ops_small.cfg", "MCEvmValue_gas_small.cfg",
+                  "MCEvmValue_xframes_small.cfg", "MCEvmValue_xframes_big.cfg"]
         strict = [("MCEvmValue_strict.cfg", "AllOrNothingStrict"), ("MCEvmValue_strict_stack.cfg", "StackDisciplineStrict")]
         emits = [[("MCEvmValue_emit_ops_big.cfg", 40000), ("MCEvmValue_emit_ops.cfg", None)],
-                 [("MCEvmValue_emit_frames.cfg", 60000), ("MCEvmValue_emit_f5.cfg", None), ("MCEvmValue_emit_multi.cfg", 20000)]]
+                 [("MCEvmValue_emit_frames.cfg", 60000), ("MCEvmValue_emit_f5.cfg", None), ("MCEvmValue_emit_multi.cfg", 20000)],
+                 [("MCEvmValue_emit_xframes.cfg", None), ("MCEvmValue_emit_xframes3.cfg", None)],
+                 [("MCEvmValue_emit_xframes_ops2.cfg", None), ("MCEvmValue_emit_claim.cfg", None)]]
         chunks, depth = [(2500, ctx.seed * 1000 + i) for i in range(3)], 5
 
     def emit_chain(plans):
@@ -315,7 +336,7 @@ def run_check(ctx):
         # the strict forms of the invariants: TLC must produce the counterexamples that became the named deviations
         return [vlib.tlc(ctx, "MCEvmValue", c, workers=4, timeout=3000) for c, _ in strict]
 
-    with ThreadPoolExecutor(max_workers=6) as ex:
+    with ThreadPoolExecutor(max_workers=8) as ex:
         fe = [ex.submit(emit_chain, pl) for pl in emits]
         fr = ex.submit(random_chain)
         big = [c for c in design if "big" in c]
